@@ -1335,7 +1335,9 @@ class C13(Prop):
     explanation = ("Theorems: the lexer's line counter is the number of LF before the offset (C19's invariant), so the line "
                    "of every error is a pure function of the source. Correspondence: model = implementation including "
                    "line, path and message of every error. Oracle: constructed line and path.")
-    assumptions = ["the faulty construct is written on a single line"]
+    assumptions = ["for constructs spread over several lines the designated token is: the identifier (undefined identifier), the first "
+                   "token of the left operand (mistyped operand, division by zero), the function name (unknown function), the dot or "
+                   "the index expression (unknown property)"]
 
     FILLERS = ["text\n", "<p>\n  para\n</p>\n", "a\r\nb\r\n", "{{ 'x' }}\n", "{{ \"multi\nline\nstring\" }}\n", "{{-- one --}}\n",
                "{{-- a\n   b\n   c --}}\n", "{{\n  1 +\n  2\n}}\n", "@if(true)\n yes\n@end\n", "@each(i in [1, 2])\n  {{ i }}\n@end\n",
@@ -1346,14 +1348,23 @@ class C13(Prop):
               ("{{ 1 + ) }}", "parse"), ("{{ ] }}", "parse"), ("@if(zz9)x@end", "eval"), ("@each(q in 5)x@end", "eval"),
               ("{{ ok9 = 1 }}{{ ok9 = 's' }}", "eval"), ("{{ -'s' }}", "eval"), ("{{ 'a' < 'b' }}", "eval"),
               ("@breakIf(zz9)", "eval"), ("{{ [1][zz9] }}", "eval"), ("{{ true ? zz9 : 1 }}", "eval")]
+    # faulty constructs spread over several lines: (source, kind, line offset of the designated token)
+    MULTI = [("{{ ob.nope9(\n  1,\n  2\n) }}", "eval", 0), ("{{ 1 +\n 'str' }}", "eval", 0), ("{{\n zz9 }}", "eval", 1), ("{{ zz9\n }}", "eval", 0),
+             ("{{ ob\n.nope }}", "eval", 1), ("{{ ob[\n'nope'\n] }}", "eval", 1), ("{{ 1 /\n 0 }}", "eval", 0), ("{{ 'a'.nofunc(\n) }}", "eval", 0),
+             ("@if(\nzz9\n)x@end", "eval", 1), ("{{ [1,\n 2].nope9(\n3) }}", "eval", 1), ("{{ 'a\nb'.nope9() }}", "eval", 1),
+             ("{{ 1 +\n ) }}", "parse", 1), ("{{ 'x'.len(\n1,\n 2).nope9(\n) }}", "eval", 2), ("{{ true ?\n zz9 :\n 1 }}", "eval", 1)]
     DATA = "((%s (map (%s (int 1)))))" % (hx("ob"), hx("k"))
 
     def build(self, rng):
         pre = [rng.choice(self.FILLERS) for _ in range(rng.choice([0, 1, 2, 3, 5, 8]))]
         post = [rng.choice(self.FILLERS) for _ in range(rng.choice([0, 1, 2]))]
-        fault, kind = rng.choice(self.FAULTS)
+        off = 0
+        if rng.random() < 0.3:
+            fault, kind, off = rng.choice(self.MULTI)
+        else:
+            fault, kind = rng.choice(self.FAULTS)
         before = "".join(pre)
-        line = before.count("\n") + 1
+        line = before.count("\n") + 1 + off
         return before + fault + rng.choice(["", "\n", " tail\n"]) + "".join(post), line, kind
 
     def generate(self, rng, tier):
@@ -1501,7 +1512,8 @@ class C16(Prop):
              ("tpl/cards.tw", "file", "@each(i in items)@component('~card', {v: i})@slot s{{ i }}@end@end"),
              ("tpl/components/card.tw", "file", "[{{ v }}@slot]"),
              ("tpl/bad.tw", "file", "partial {{ n }}\n{{ zz }}"),
-             ("tpl/bad2.tw", "file", "{{ n.nofunc() }}")]
+             ("tpl/bad2.tw", "file", "{{ n.nofunc() }}"),
+             ("tpl/errpg.tw", "file", "<h1>custom error page</h1>")]
 
     def opset(self):
         return [op_string("home", TREE_DATA), op_string("bad", TREE_DATA), op_string("missing", TREE_DATA), op_string("cards", TREE_DATA),
@@ -1525,7 +1537,11 @@ class C16(Prop):
             hists.append([rng.randrange(len(ops)) for _ in range(rng.choice([5, 8, 12]))])
         lines = []
         for i, h in enumerate(hists):
-            lines.append(tree_case("C16:%d" % i, self.FILES, [op_new("tpl", ".tw")] + [ops[j] for j in h], ["ok:0", "nopanic"]))
+            # with and without a custom error page configured (debug off / on)
+            cfgs = [op_new("tpl", ".tw"), op_new("tpl", ".tw", "errpg", 0), op_new("tpl", ".tw", "errpg", 1)]
+            new = cfgs[i % 3] if len(h) > 1 else None
+            for nw in ([new] if new else cfgs):
+                lines.append(tree_case("C16:%d_%d" % (i, cfgs.index(nw)), self.FILES, [nw] + [ops[j] for j in h], ["ok:0", "nopanic"]))
         return lines, {"exhaustive": False, "distribution": {"histories": len(hists), "operations": len(ops)},
                        "exhaustive_part": "all histories of length <= %d over %d operations" % (2 if tier != "thorough" else 4, len(ops))}
 
@@ -1551,14 +1567,14 @@ class C16(Prop):
             obs = r["impl"].split("\t")[1].split("|") if r["impl"].startswith("TREE\t") else None
             parsed.append((r, items, obs))
             if obs and len(items) == 2 and len(obs) == 2:
-                base[items[1]] = obs[1]
+                base[(items[0], items[1])] = obs[1]
         bad = []
         for r, items, obs in parsed:
             if obs is None:
                 bad.append((r, "history did not complete: " + r["impl"][:60]))
                 continue
             for k in range(1, len(items)):
-                b = base.get(items[k])
+                b = base.get((items[0], items[k]))
                 if b is not None and k < len(obs) and obs[k] != b:
                     bad.append((r, "operation %d of the history differs from the same operation issued first after a fresh load" % k))
                     break
@@ -2075,3 +2091,40 @@ class C12(Prop):
 
 
 PROPS["C12"] = C12()
+
+
+
+# ----------------------------------------------------------------------------- C15
+
+class C15(Prop):
+    timeout_ms = 120000
+    rule = ("a loaded tree (layout page, component page with a loop, failing pages, custom error page on/off, debug on/off) "
+            "and the operations {String ok / failing / missing, Response ok / failing, EvaluateString ok / failing, "
+            "EvaluateFile}; G goroutines (2, 8, 32) x R rounds issue them in shuffled order with Gosched noise; every "
+            "concurrent result is compared with the sequential baseline. The whole run is repeated with a harness built "
+            "with the race detector (halt_on_error): a report kills the worker and is a failure. GOMAXPROCS 1, 4, 16. "
+            "This search supports the decision; the decision is the footprint theorem.")
+    explanation = ("Theorems: (1) computed on the footprint tables regenerated from the source (package-level writes per "
+                   "function, call graph): no function reachable from String / Response / EvaluateString / EvaluateFile "
+                   "assigns a package-level variable (atomic Store/Load calls are listed separately) or an AST field; "
+                   "(2) generic: if every step of every call leaves the shared state unchanged, then in every interleaving "
+                   "each call returns what it returns alone (induction on the schedule). PARTIAL: the Go memory model, the "
+                   "scheduler and state invisible to a syntactic footprint (none expected: no unsafe, no cgo) are not "
+                   "modelled; the race-detector run and the baseline comparison only search for a witness.")
+    assumptions = ["no custom function is registered concurrently with renders (the property starts after registration)",
+                   "the footprint analysis is syntactic (go/ast): writes through aliases of package-level variables would escape it"]
+
+    def generate(self, rng, tier):
+        files = C16.FILES
+        ops = C16().opset()
+        lines = []
+        i = 0
+        for errpage, debug in (("", 0), ("errpg", 0), ("errpg", 1), ("", 1)):
+            for G in ((2, 8, 32) if tier != "search" else (8,)):
+                R = {"quick": 6, "thorough": 60, "search": 10}[tier]
+                lines.append("\t".join(["C15:%d" % i, "conc", hx(fsx(files)), hx(opx([op_new("tpl", ".tw", errpage, debug)] + ops)), str(G), str(R)]))
+                i += 1
+        return lines, {"exhaustive": False, "distribution": {"runs": i}}
+
+
+PROPS["C15"] = C15()
